@@ -1234,7 +1234,7 @@ def main(prop, tier):
             'inproc_distinct_non_identity_orders': len([k for k in oi if not k.endswith('identity')]),
         },
         'session_src_resolves_to': src,
-        'exhaustive': ('every batch of 1..3 programs over the 9 per-program states %s x compiler '
+        'exhaustive_part': ('every batch of 1..3 programs over the 9 per-program states %s x compiler '
                               'crash {no,yes} x 4 languages = %d batches, all enumerated in both tiers; '
                               'larger batches, sequences and sessions are sampled'
                               % (STATES, 4 * 2 * sum(len(STATES) ** n for n in (1, 2, 3)))),
